@@ -165,6 +165,13 @@ def run(ctx):
           "EnvGates": '{"I"}',
           "Controls": "{ { <<1, p, f[j], j, g[j]>> : j \\in 1..3 } : p \\in BOOLEAN, f \\in [1..3 -> {2,5,1}], g \\in [1..3 -> %s] }" % kinds}),
     ]
+    # controls stamped before the start or after the end of the computed range never act (a Control object with
+    # absolute times is typically re-used for a continued computation with a later start time)
+    outside = ("{ { <<r1, p1, i1, 1, k1>>, <<r2, p2, 5, 2, k2>> } : r1 \\in {-2, -1, 3, 4}, p1 \\in BOOLEAN, i1 \\in {2, 3}, "
+               "k1 \\in %s, r2 \\in 0..2, p2 \\in BOOLEAN, k2 \\in {\"int\", \"f+\"} }" % kinds)
+    configs.append(("controls stamped outside the computed range",
+                    {"D": "3", "EDims": "<<>>", "A0": "<<>>", "N": "2", "M": "6", "SysGates": "{<<1,2>>}",
+                     "EnvGates": '{"I"}', "Controls": outside}))
     if not quick:
         configs.append(("3 steps, ancilla env, schedules of <= 2 controls",
                         {"D": "2", "EDims": "<<2>>", "A0": "<<0>>", "N": "3", "M": "4", "SysGates": "{<<1,2>>}",
@@ -193,7 +200,7 @@ def run(ctx):
                              "trigger": trig, "devrecs": devrec.get(ckey(case)) if trig else None})
             if all(c[4] == "int" for c in case["ctl"]) and not case["edims"]:
                 ints.append(case)
-        if ndiff == 0 and "f" in consts["Controls"]:
+        if ndiff == 0 and "f" in consts["Controls"] and "outside" not in label:
             raise core.MachineryError("deviation MixedTimeSpecOrder not distinguished in config %s" % label)
         ntrig += ndiff
         for i in range(0, len(ints) - 1, 1 if quick else 1):
@@ -218,6 +225,23 @@ def run(ctx):
             else:
                 key = "C18:%s:%s" % (job["api"], x["what"])
             ctx.violation(key, "%s: %s" % (cid, x), {"case": c, "api": job["api"], "start": job["start"]})
+    # ---- the adjoint (gradient) pass applies the same controls, transposed and in reverse order: every schedule of
+    # <= 2 step controls, gradient compared with the exact derivative of the term trajectories (machinery of C08)
+    from harness.props import c08
+    gconsts = {"D": "2", "EDims": "<<2>>", "A0": "<<1>>", "N": "2", "M": "8", "SysGates": "{<<0,2>>}",
+               "EnvGates": '{"SC"}', "Dephase": "TRUE", "Controls": schedules(2, '{"int"}', "{2,5,3}", 2),
+               "Devs": "{}", "FixedPlan": "<< >>", "Emit": "TRUE"}
+    gr = ctx.tlc("PTContract", c08.CFG, label="gradient with controls: all schedules of <= 2 step controls", constants=gconsts,
+                 workers=4)
+    gcases = gr.cases if not quick else [c for i, c in enumerate(gr.cases) if len(c["ctl"]) < 2 or i % 2 == 0]
+    gjobs = [{"case": dict(c, dephase=True), "variant": {"mode": "supplied", "target": "linear"}, "seed": ctx.seed}
+             for c in gcases]
+    for job, mm in zip(gjobs, core.pmap(c08.run_case, gjobs, chunksize=4)):
+        c = job["case"]
+        cid = {"api": "gradient", "ctl": c["ctl"]}
+        ctx.case(cid, nontrivial=bool(c["ctl"]))
+        for x in mm:
+            ctx.violation("C18:gradient:%s" % x["what"], "%s: %s" % (cid, x), {"gradcase": c})
     res = core.pmap(run_chain, chain_jobs, chunksize=4)
     for job, mm in zip(chain_jobs, res):
         cid = {"api": "tebd", "site0": job["a"]["ctl"], "site1": job["b"]["ctl"], "incremental": job.get("incremental", False)}
@@ -236,10 +260,13 @@ def run(ctx):
 def replay(ctx, rep):
     core._init_worker()
     c = rep["case"]
-    if "chain" in c:
+    ctx.case({"replay": True})
+    if "gradcase" in c:
+        from harness.props import c08
+        mm = c08.run_case({"case": c["gradcase"], "variant": {"mode": "supplied", "target": "linear"}, "seed": rep.get("seed", 0)})
+    elif "chain" in c:
         mm = run_chain({"a": c["chain"][0], "b": c["chain"][1], "seed": rep.get("seed", 0)})
     else:
         mm = run_api({"case": c["case"], "api": c["api"], "seed": rep.get("seed", 0), "start": c["start"]})
-    ctx.case({"replay": True})
     for x in mm:
         ctx.violation("C18:replay:" + x["what"], str(x), c)
